@@ -92,7 +92,9 @@ class FixedMatrix
         unref();
     }
     
-    Py_ssize_t convert_index(int index) const
+    // takes the full width of a Python index: an int parameter would
+    // silently truncate 2^32 to row 0
+    Py_ssize_t convert_index(Py_ssize_t index) const
     {
         if (index < 0) index += _rows;
         if (index >= _rows || index < 0) {
@@ -115,7 +117,12 @@ class FixedMatrix
 		    boost::python::throw_error_already_set();
             }
         } else if (PyInt_Check(index)) {
-            Py_ssize_t i = convert_index(PyInt_AS_LONG(index));
+            // an integer that does not fit Py_ssize_t is out of range
+            // for any matrix: IndexError, as for a Python sequence
+            Py_ssize_t pi = PyNumber_AsSsize_t(index, PyExc_IndexError);
+            if (pi == -1 && PyErr_Occurred())
+                boost::python::throw_error_already_set();
+            Py_ssize_t i = convert_index(pi);
             start = i; end = i+1; step = 1; slicelength = 1;
         } else {
             PyErr_SetString(PyExc_TypeError, "Object is not a slice");
